@@ -143,16 +143,19 @@ HoldFor(t) == {gp.mtrk[d] : d \in RunPrereq(t)}
 (* history: the jobs that were really producing t's inputs at this moment *)
 NeedsFor(t) == {j \in JobIds : LiveJob(j) /\ jobs[j].tgt \in Deps(W3, t)}
 
-(* step 2: one submission accepted by the scheduler *)
-RunSubmit(t) ==
+(* step 2: one submission accepted by the scheduler.  RunSubmitH takes the hold list the scheduler *)
+(* is given; gwf gives HoldFor(t).  (Trace validation passes the list it observed, so that the   *)
+(* scheduler model goes on with what it was really told.)                                        *)
+RunSubmitH(t, h) ==
   /\ Submittable(t) /\ Len(jobs) < MaxJobs
   /\ LET id == Len(jobs) + 1 IN
-     /\ jobs' = Append(jobs, [tgt |-> t, st |-> "PD", hold |-> HoldFor(t), needs |-> NeedsFor(t), gone |-> FALSE, ran |-> FALSE])
+     /\ jobs' = Append(jobs, [tgt |-> t, st |-> "PD", hold |-> h, needs |-> NeedsFor(t), gone |-> FALSE, ran |-> FALSE])
      /\ gp' = [gp EXCEPT !.todo = @ \ {t}, !.mtrk[t] = id,
                          !.mhsh[t] = IF gp.hashing THEN specv[t] ELSE @]
      /\ trk' = IF PersistEachSubmit THEN gp'.mtrk ELSE trk
   /\ UNCHANGED <<w, specv, fs, clock, hsh, useHash, conv, cnt>>
   /\ Log("RunSubmit", [t |-> t])
+RunSubmit(t) == RunSubmitH(t, HoldFor(t))
 
 (* the scheduler rejects the submission of t: gwf stops, keeping what was accepted so far *)
 RunReject(t) ==
@@ -368,9 +371,11 @@ GwfNext ==
                          \/ (On("Run") /\ QuietIfAsked /\ RunBegin(sel)) \/ (On("Touch") /\ Touch(sel))
                          \/ (On("QueryFail") /\ QueryFail(sel))
   \/ On("Cancel") /\ \E sel \in Sels : \E r \in SUBSET CancelRequests(sel) :
-                          Cardinality(r) <= MaxFaults - cnt.faults /\ Cancel(sel, r)
+                          /\ Cardinality(r) <= MaxFaults - cnt.faults
+                          /\ On("UsefulCancel") => \E j \in CancelRequests(sel) : LiveJob(j)   \* generation shaping
+                          /\ Cancel(sel, r)
   \/ On("Clean") /\ \E sel \in Sels, all \in BOOLEAN : Clean(sel, all)
-  \/ (On("Clean") /\ Declined("Clean")) \/ (On("Cancel") /\ Declined("Cancel"))
+  \/ (On("Clean") /\ Declined("Clean")) \/ (On("Cancel") /\ ~On("UsefulCancel") /\ Declined("Cancel"))
   \/ \E t \in T : RunSubmit(t) \/ (On("Reject") /\ RunReject(t))
   \/ RunEnd \/ (On("Crash") /\ Crash) \/ (On("CrashWrite") /\ \E file \in {"trk", "hsh"} : CrashWrite(file))
 EnvNext ==
